@@ -29,6 +29,7 @@ import (
 	"strconv"
 	"strings"
 	"sync"
+	"syscall"
 	"time"
 	"unicode/utf8"
 
@@ -159,6 +160,8 @@ type c04Run struct {
 	// one violation per key, keeping the shortest input
 	best map[string]Violation
 	size map[string]int
+	// runs one source ("hex:<source>") or one named bomb in the child process; set by c04RunBombs
+	runChild func(only string) (finished []string, diedAt string, diedMsg string)
 }
 
 func (h *c04Run) violate(key, what, api, src, opts, env, expect, got string) {
@@ -282,8 +285,16 @@ func c04Child() {
 	}
 	env := c04NewEnv()
 	big := map[string]bool{"open-paren": true, "paren-balanced": true, "minus": true, "dot-chain": true, "binary-chain": true, "invalid-utf8": true}
+	// a wrapped-around size must fail as an allocation error at once, not fill the machine's memory
+	syscall.Setrlimit(syscall.RLIMIT_AS, &syscall.Rlimit{Cur: 12 << 30, Max: 12 << 30})
 	bombs := c04Bombs(limit)
-	if !full {
+	if strings.HasPrefix(only, "hex:") {
+		// one explicit source (an input the coverage-guided search blamed for the death of its worker)
+		b, _ := hex.DecodeString(strings.TrimPrefix(only, "hex:"))
+		bombs = []struct{ Name, Src string }{{"fuzz-input", string(b)}}
+		only = ""
+		full = true
+	} else if !full {
 		// quick tier: 64 KiB for the constructs that recurse, 6 KiB for the rest (error formatting is quadratic in the line length)
 		small := c04Bombs(4 * 1024)
 		for i := range bombs {
@@ -398,7 +409,7 @@ func c04Replay(c *Ctx, h *c04Run) {
 
 func runC04(c *Ctx) {
 	r := c.R
-	r.Rule = "outcome class of parser.Parse / expr.Compile / expr.Eval / expr.Run under recover + 5 s deadline for: systematic enumerations (every escape introducer x 0..9 following digits x both quotes x closed/extended/unterminated, alone and embedded; number-token stems x tails; word-operator prefixes and extensions in every operand position; int32/int64 boundary literals incl. hex and overflowing folds in 22 operator/range/index/slice templates x 6 option sets), 200 hand-written failure-mode sources and the zoo generator's sources, their byte/token mutations, random byte strings up to 64 KiB (random bytes, ASCII, multi-plane UTF-8, token soup), 31 nesting bombs of 64 KiB (child process), the full 7680-element option matrix x 4 sources plus random option subsets on every stream, 12 run-time environments (nil, zero, wrongly typed, panicking members); plus the C12 lexer correspondence (Lean lexer model, proved total) on ~50 000 of these strings; non-trivial = non-empty input that reached an outcome; distinct by (api, options, source)"
+	r.Rule = "outcome class of parser.Parse / expr.Compile / expr.Eval / expr.Run under recover + 5 s deadline for: systematic enumerations (every escape introducer x 0..9 following digits x both quotes x closed/extended/unterminated, alone and embedded; number-token stems x tails; word-operator prefixes and extensions in every operand position; int32/int64 boundary literals incl. hex and overflowing folds in 22 operator/range/index/slice templates x 6 option sets), 200 hand-written failure-mode sources and the zoo generator's sources, their byte/token mutations, random byte strings up to 64 KiB (random bytes, ASCII, multi-plane UTF-8, token soup), 31 nesting bombs of 64 KiB and 11 allocation bombs (sizes that wrap around the int range) in a child process, the full 7680-element option matrix x 4 sources plus random option subsets on every stream, 12 run-time environments (nil, zero, wrongly typed, panicking members); plus the C12 lexer correspondence (Lean lexer model, proved total) on ~50 000 of these strings; non-trivial = non-empty input that reached an outcome; distinct by (api, options, source)"
 	h := &c04Run{c: c, best: map[string]Violation{}, size: map[string]int{}}
 	if c.Replay != "" {
 		c04Replay(c, h)
@@ -620,6 +631,10 @@ func c04RunBombs(h *c04Run) {
 		if only != "" {
 			args = append(args, only)
 		}
+		if strings.HasPrefix(only, "hex:") {
+			b, _ := hex.DecodeString(strings.TrimPrefix(only, "hex:"))
+			srcOf["fuzz-input"] = string(b)
+		}
 		cmd := exec.Command(self, args...)
 		var so, se bytes.Buffer
 		cmd.Stdout, cmd.Stderr = &so, &se
@@ -672,6 +687,7 @@ func c04RunBombs(h *c04Run) {
 		}
 		return finished, current, runErr.Error() + ": " + first
 	}
+	h.runChild = runChild
 	pending := map[string]bool{}
 	for _, b := range bombs {
 		pending[b.Name] = true
@@ -744,6 +760,23 @@ func c04NativeFuzz(h *c04Run) {
 	}
 	km := regexp.MustCompile(`KEY=(\S+) API=(\S+) SRCHEX=(\S+) OPTS=(.*?)(?: MSG=(.*))?\n`).FindStringSubmatch(text)
 	if km == nil {
+		// the fuzzing worker itself died (fatal runtime error: out of memory, stack overflow): the engine names the
+		// input it blames; replay it alone in the child process to confirm
+		if fm := regexp.MustCompile(`Failing input written to (testdata/fuzz/FuzzC04/\w+)`).FindStringSubmatch(text); fm != nil && h.runChild != nil {
+			if data, rerr := os.ReadFile(fm[1]); rerr == nil {
+				if sm := regexp.MustCompile(`(?m)^string\((".*")\)$`).FindStringSubmatch(string(data)); sm != nil {
+					if src, uerr := strconv.Unquote(sm[1]); uerr == nil {
+						_, diedAt, msg := h.runChild("hex:" + hex.EncodeToString([]byte(src)))
+						if diedAt != "" {
+							h.violate("c04:fatal:fuzz-input", "the process died (unrecoverable runtime error) on an input found by go test -fuzz", "process", src, "", "", "a result or a non-nil error", msg)
+							os.RemoveAll("testdata/fuzz/FuzzC04")
+							return
+						}
+						r.Note("go test -fuzz lost a worker on %q, but the input replays without a fatal error alone", src)
+					}
+				}
+			}
+		}
 		r.Mismatch("c04-fuzz", "go test -fuzz", "runs", fxTail(text, 1500))
 		return
 	}
